@@ -15,10 +15,10 @@ import (
 
 // KeyFam is a family of keys expanded deterministically.
 type KeyFam struct {
-	Kind string `json:"kind"` // empty prefix ext lastbyte firstbyte nul len counter raw
-	N    int    `json:"n,omitempty"`
-	Stem string `json:"stem,omitempty"`
-	L    int    `json:"l,omitempty"`
+	Kind string     `json:"kind"` // empty prefix ext lastbyte firstbyte nul len counter raw
+	N    int        `json:"n,omitempty"`
+	Stem string     `json:"stem,omitempty"`
+	L    int        `json:"l,omitempty"`
 	Raw  []evid.Hex `json:"raw,omitempty"`
 }
 
@@ -95,10 +95,10 @@ func (l SMLoad) keys() []string {
 
 // StrMapCase is a load history on one instance plus probe configuration.
 type StrMapCase struct {
-	VType   int      `json:"vtype"` // 0 StrMap[int], 1 StrMap[struct], 2 Str2Str, 3 strstore
-	Loads   []SMLoad `json:"loads"` // empty = never loaded
-	Probes  []evid.Hex `json:"probes,omitempty"`
-	Reps    int      `json:"reps,omitempty"`
+	VType  int        `json:"vtype"` // 0 StrMap[int], 1 StrMap[struct], 2 Str2Str, 3 strstore
+	Loads  []SMLoad   `json:"loads"` // empty = never loaded
+	Probes []evid.Hex `json:"probes,omitempty"`
+	Reps   int        `json:"reps,omitempty"`
 }
 
 type pairV struct {
@@ -108,10 +108,10 @@ type pairV struct {
 
 // smInstance abstracts the three map flavours over an index-valued model.
 type smInstance struct {
-	load  func(kk []string, vals []int, fromMap bool, mismatch bool) error
-	get   func(k string) (int, bool)
+	load   func(kk []string, vals []int, fromMap bool, mismatch bool) error
+	get    func(k string) (int, bool)
 	length func() int
-	items func() (map[string]int, int, error) // nil if unsupported
+	items  func() (map[string]int, int, error) // nil if unsupported
 }
 
 func strVal(i int) string {
